@@ -783,7 +783,7 @@ func runSweep(section, list string, cases []kase, sec *vh.Section) {
 				if k.Surround == "range" || k.Surround == "ts" {
 					// through the LQL parser the result is int64 Unix nanoseconds: only instants representable there
 					tm, c := implLql(e.in)
-					if c != "err" && tm.Year() > 1700 && tm.Year() < 2250 {
+					if c != "err" && !tm.Before(time.Unix(0, math.MinInt64)) && !tm.After(time.Unix(0, math.MaxInt64)) {
 						var got string
 						if k.Surround == "range" {
 							got = implRange(e.in)
@@ -2173,7 +2173,9 @@ func sectionRelative(rng *vh.Rng) {
 			res.Mismatch(vh.Mismatch{Section: "relative", Function: "parseLqlDateTime (relative literal)", Input: rawCase{"lql", l.text}, Impl: ob[i].c, Model: outs[i] + "  (" + d + ")"})
 		}
 		// SPEC: not later than now
-		if ob[i].c == "err" || ob[i].tm.After(ob[i].aft) {
+		if !(l.dur >= 0) && ob[i].c == "err" {
+			res.Dist(sec, "negative-or-NaN-number:rejected") // not a relative literal -<n>: rejecting it is right
+		} else if ob[i].c == "err" || ob[i].tm.After(ob[i].aft) {
 			fid := ""
 			if l.dur < 0 && ob[i].c != "err" && strings.HasPrefix(outs[i], "rel ") && openIDs["F70"] {
 				fid = "F70" // a negative number after the '-': now + |n|
